@@ -306,7 +306,7 @@ func TestC12Inputs(t *testing.T) {
 		w := buildWorld(t, "C12", k, rapid.IntRange(1, 2).Draw(t, "nDev"), true)
 		s := w.s
 		defer s.cleanup()
-		e := &c12Env{w: w, s: s, hc: &http.Client{Timeout: 5 * time.Second, Transport: &http.Transport{DisableKeepAlives: false, MaxIdleConns: 4}}}
+		e := &c12Env{w: w, s: s, hc: &http.Client{Timeout: 120 * time.Second, Transport: &http.Transport{DisableKeepAlives: true}}}
 		defer func() {
 			for _, c := range e.idle {
 				c.Close()
